@@ -5,11 +5,14 @@ import EmmyVerif.Gen.ClimbTable
 `parse_sub_expr` (precedence climbing over `PRIORITY` / `UNARY_PRIORITY`), `parse_simple_expr`,
 `parse_suffixed_expr` (suffix loop) and `parse_args` as total functions on lists of token kinds
 (`Gen.Climb.Tok` = every `LuaTokenKind`, regenerated from /repo). Trivia tokens are assumed removed
-(the real parser skips them in `bump`). The functions take fuel; `climb` supplies `2·|tokens| + 2`.
+(the real parser skips them in `bump`). The functions take fuel; `climb` supplies `4·|tokens| + 8`.
 
 Modelled exactly: literals, names, parentheses, unary and binary operators, `.name`, `[e]`, `f(args)`,
-`o:m(args)`. Reported as `unsupported` (not compared by the tie): table constructors, closures,
-string/table call arguments, and the LuaJIT-fork extensions (ternary, `?.`, short functions).
+`o:m(args)`, string and table call arguments (`f "s"`, `f{…}`), table constructors (positional, `name = e`,
+`[k] = e` fields, `,`/`;` separators, trailing separator) and closures with an empty body
+(`function(a, b, ...) end`). Reported as `unsupported` (not compared by the tie): closures with a body (the
+statement grammar is not modelled), named varargs, and the LuaJIT-fork extensions (ternary, `?.`, short
+functions).
 The model answers `ok tree` exactly when the real parser produces that tree with no error;
 error *recovery* of the real parser is not modelled (any failure is `syntax`).
 -/
@@ -47,9 +50,18 @@ inductive Expr
   | idx (e k : Expr)                 -- IndexExpr  e[k]
   | call (f : Expr) (as : Args)      -- CallExpr   f(args)
   | mcall (o : Expr) (as : Args)     -- CallExpr(IndexExpr o:Name, args)
+  | table (fs : Fields)              -- TableEmptyExpr / TableArrayExpr / TableObjectExpr
+  | closure (n : Nat) (va : Bool)    -- ClosureExpr: n named parameters, optional `...`, empty body
 inductive Args
   | nil
   | cons (e : Expr) (rest : Args)
+inductive Fields
+  | nil
+  | cons (f : Field) (rest : Fields)
+inductive Field
+  | pos (e : Expr)                   -- TableFieldValue   e
+  | named (e : Expr)                 -- TableFieldAssign  Name = e
+  | keyed (k e : Expr)               -- TableFieldAssign  [k] = e
 end
 
 inductive Err | syntax | unsupported | fuel
@@ -62,10 +74,32 @@ def isLiteral : Tok → Bool
   | .TkInt | .TkFloat | .TkComplex | .TkNil | .TkTrue | .TkFalse | .TkDots | .TkString | .TkLongString => true
   | _ => false
 
-/-- primary-position tokens whose parse is not modelled -/
+/-- primary-position tokens whose parse is not modelled (short functions of the LuaJIT fork) -/
 def unsupportedPrimary : Tok → Bool
-  | .TkLeftBrace | .TkFunction | .TkLogicalOr | .TkBitOr => true
+  | .TkLogicalOr | .TkBitOr => true
   | _ => false
+
+/-- `parse_param_list` after `(`, at a parameter position with `n` names read: number of names, vararg, rest
+after `)` -/
+def paramList : List Tok → Nat → Except Err (Nat × Bool × List Tok)
+  | [], _ => .error .syntax
+  | t :: r, n =>
+    if t = .TkName then
+      match r with
+      | [] => .error .syntax
+      | t2 :: r2 =>
+        if t2 = .TkComma then
+          (if r2.head? = some .TkRightParen then .error .syntax else paramList r2 (n + 1))
+        else if t2 = .TkRightParen then .ok (n + 1, false, r2)
+        else .error .syntax
+    else if t = .TkDots then
+      match r with
+      | [] => .error .syntax
+      | t2 :: r2 =>
+        if t2 = .TkRightParen then .ok (n, true, r2)
+        else if t2 = .TkName then .error .unsupported      -- named vararg (feature dependent)
+        else .error .syntax
+    else .error .syntax
 
 /-- tokens that continue a prefix expression in `parse_suffixed_expr` -/
 def isSuffixStart : Tok → Bool
@@ -75,7 +109,11 @@ def isSuffixStart : Tok → Bool
 
 /-- call-argument starts that are not modelled (string / table arguments, `?.`) -/
 def unsupportedArgStart : Tok → Bool
-  | .TkLeftBrace | .TkString | .TkLongString | .TkSafeNavigation => true
+  | .TkSafeNavigation => true
+  | _ => false
+
+def isStringTok : Tok → Bool
+  | .TkString | .TkLongString => true
   | _ => false
 
 variable (T : Table)
@@ -99,6 +137,21 @@ def sub : Nat → Int → List Tok → Res
       | .ok (x, r) =>
         if r.head? = some .TkRightParen then suffix f limit (.paren x) r.tail else .error .syntax
       | .error e => .error e
+    else if t = .TkLeftBrace then
+      match tableP f ts with
+      | .ok (fs, r) => loop f limit (.table fs) r
+      | .error e => .error e
+    else if t = .TkFunction then
+      -- `parse_closure_expr`: parameter list, then `end` (a body needs the statement grammar)
+      (if ts.head? = some .TkLeftParen then
+        (if ts.tail.head? = some .TkRightParen then
+          (if ts.tail.tail.head? = some .TkEnd then loop f limit (.closure 0 false) ts.tail.tail.tail
+           else .error .unsupported)
+         else
+          match paramList ts.tail 0 with
+          | .ok (n, va, r) => if r.head? = some .TkEnd then loop f limit (.closure n va) r.tail else .error .unsupported
+          | .error e => .error e)
+       else .error .syntax)
     else if unsupportedPrimary t then .error .unsupported
     else .error .syntax
 /-- the binary-operator loop of `parse_sub_expr` with the completed left operand `cm` -/
@@ -136,6 +189,11 @@ def suffix : Nat → Int → Expr → List Tok → Res
               match args f r2 with
               | .ok (as, r') => suffix f limit (.mcall cm as) r'
               | .error e => .error e
+          else if isStringTok t2 then suffix f limit (.mcall cm (.cons (.lit t2) .nil)) r2
+          else if t2 = .TkLeftBrace then
+            match tableP f r2 with
+            | .ok (fs, r') => suffix f limit (.mcall cm (.cons (.table fs) .nil)) r'
+            | .error e => .error e
           else if unsupportedArgStart t2 then .error .unsupported
           else .error .syntax
       else .error .syntax
@@ -145,6 +203,11 @@ def suffix : Nat → Int → Expr → List Tok → Res
         match args f r with
         | .ok (as, r') => suffix f limit (.call cm as) r'
         | .error e => .error e
+    else if isStringTok t then suffix f limit (.call cm (.cons (.lit t) .nil)) r
+    else if t = .TkLeftBrace then
+      match tableP f r with
+      | .ok (fs, r') => suffix f limit (.call cm (.cons (.table fs) .nil)) r'
+      | .error e => .error e
     else if unsupportedArgStart t then .error .unsupported
     else loop f limit cm (t :: r)
 /-- the argument loop of `parse_args` after `(`, when the next token is not `)`; consumes the `)` -/
@@ -162,11 +225,52 @@ def args : Nat → List Tok → Except Err (Args × List Tok)
       else if r.head? = some .TkRightParen then .ok (.cons e .nil, r.tail)
       else .error .syntax
     | .error e => .error e
+/-- `parse_table_expr` after `{`; consumes the `}` -/
+def tableP : Nat → List Tok → Except Err (Fields × List Tok)
+  | 0, _ => .error .fuel
+  | f + 1, ts => if ts.head? = some .TkRightBrace then .ok (.nil, ts.tail) else fieldsP f ts
+/-- the field loop at a field position; consumes the `}` -/
+def fieldsP : Nat → List Tok → Except Err (Fields × List Tok)
+  | 0, _ => .error .fuel
+  | f + 1, ts =>
+    match fieldP f ts with
+    | .ok (fd, r) =>
+      if r.head? = some .TkComma ∨ r.head? = some .TkSemicolon then
+        if r.tail.head? = some .TkRightBrace then .ok (.cons fd .nil, r.tail.tail)   -- trailing separator
+        else
+          match fieldsP f r.tail with
+          | .ok (fs, r') => .ok (.cons fd fs, r')
+          | .error e => .error e
+      else if r.head? = some .TkRightBrace then .ok (.cons fd .nil, r.tail)
+      else .error .syntax
+    | .error e => .error e
+/-- `parse_field_with_recovery` (any pushed error = `syntax`) -/
+def fieldP : Nat → List Tok → Except Err (Field × List Tok)
+  | 0, _ => .error .fuel
+  | f + 1, ts =>
+    if ts.head? = some .TkLeftBracket then
+      match sub f 0 ts.tail with
+      | .ok (k, r) =>
+        if r.head? = some .TkRightBracket ∧ r.tail.head? = some .TkAssign then
+          match sub f 0 r.tail.tail with
+          | .ok (e, r') => .ok (.keyed k e, r')
+          | .error e => .error e
+        else .error .syntax
+      | .error e => .error e
+    else if ts.head? = some .TkName ∧ ts.tail.head? = some .TkAssign then
+      match sub f 0 ts.tail.tail with
+      | .ok (e, r) => .ok (.named e, r)
+      | .error e => .error e
+    else if ts.head? = some .TkLocal ∨ ts.head? = none then .error .syntax
+    else
+      match sub f 0 ts with
+      | .ok (e, r) => .ok (.pos e, r)
+      | .error e => .error e
 end
 
 /-- `parse_expr` on a complete token list: the whole list must be one expression -/
 def climb (ts : List Tok) : Except Err Expr :=
-  match sub T (2 * ts.length + 2) 0 ts with
+  match sub T (4 * ts.length + 8) 0 ts with
   | .ok (e, []) => .ok e
   | .ok _ => .error .syntax
   | .error e => .error e
@@ -185,6 +289,12 @@ def binTok : BinOp → Tok
   | .OpLt => .TkLt | .OpLe => .TkLe | .OpGt => .TkGt | .OpGe => .TkGe | .OpEq => .TkEq | .OpNe => .TkNe
   | .OpAnd => .TkAnd | .OpOr => .TkOr | .OpNilCoalescing => .TkNilCoalescing | .OpNop => .None
 
+/-- the tokens of a parameter list: `n` names separated by commas, then `...` if `va` -/
+def paramToks : Nat → Bool → List Tok
+  | 0, false => []
+  | 0, true => [.TkDots]
+  | n + 1, va => .TkName :: (if n = 0 ∧ va = false then [] else .TkComma :: paramToks n va)
+
 mutual
 /-- reference unparser: writes exactly the parentheses that are `paren` nodes -/
 def flat : Expr → List Tok
@@ -197,10 +307,20 @@ def flat : Expr → List Tok
   | .idx e k => flat e ++ .TkLeftBracket :: (flat k ++ [.TkRightBracket])
   | .call f as => flat f ++ .TkLeftParen :: (flatArgs as ++ [.TkRightParen])
   | .mcall o as => flat o ++ .TkColon :: .TkName :: .TkLeftParen :: (flatArgs as ++ [.TkRightParen])
+  | .table fs => .TkLeftBrace :: (flatFields fs ++ [.TkRightBrace])
+  | .closure n va => .TkFunction :: .TkLeftParen :: (paramToks n va ++ [.TkRightParen, .TkEnd])
 def flatArgs : Args → List Tok
   | .nil => []
   | .cons e .nil => flat e
   | .cons e (.cons e' r) => flat e ++ .TkComma :: flatArgs (.cons e' r)
+def flatFields : Fields → List Tok
+  | .nil => []
+  | .cons f .nil => flatField f
+  | .cons f (.cons f' r) => flatField f ++ .TkComma :: flatFields (.cons f' r)
+def flatField : Field → List Tok
+  | .pos e => flat e
+  | .named e => .TkName :: .TkAssign :: flat e
+  | .keyed k e => .TkLeftBracket :: (flat k ++ .TkRightBracket :: .TkAssign :: flat e)
 end
 
 /-! ## Canonical S-expression (the tie compares it with the real tree) -/
@@ -219,9 +339,18 @@ def sexpr : Expr → String
   | .idx e k => s!"(idx {sexpr e} {sexpr k})"
   | .call f as => s!"(call {sexpr f}{sexprArgs as})"
   | .mcall o as => s!"(call (colon {sexpr o}){sexprArgs as})"
+  | .table fs => s!"(table{sexprFields fs})"
+  | .closure n va => s!"(closure {n} {if va then 1 else 0})"
 def sexprArgs : Args → String
   | .nil => ""
   | .cons e r => " " ++ sexpr e ++ sexprArgs r
+def sexprFields : Fields → String
+  | .nil => ""
+  | .cons f r => " " ++ sexprField f ++ sexprFields r
+def sexprField : Field → String
+  | .pos e => s!"(pos {sexpr e})"
+  | .named e => s!"(named {sexpr e})"
+  | .keyed k e => s!"(keyed {sexpr k} {sexpr e})"
 end
 
 end Climb
